@@ -1,29 +1,39 @@
 /-
-F120 — `KittyImage.Draw` has no size test: it records a placement of the image's `k.w × k.h` cells at the
-window's origin even when the window is smaller, so the terminal draws the image over cells outside the target
-window (`Sixel.Draw` refuses such an image: `if s.w > w || s.h > h { return }`).  The property text says "drawing
-an image touches only cells inside the target window"; for kitty placements that holds only when the image was
-resized to (at most) the window's size (`Props.C20Ext.kitty_placement_inside_partial`).
-Replayed on the real code by corpus/C20/F120.ops; recorded as a known finding.
+F120 (repaired, /repo 7b23fe1) — `KittyImage.Draw` had no size test: it recorded a placement of the image's
+`k.w × k.h` cells at the window's origin even when the window was smaller, so the terminal drew the image over
+cells outside the target window (`Sixel.Draw` refuses such an image: `if s.w > w || s.h > h { return }`, and the
+`Image` interface documents "The image will not be drawn if it is larger than the window").  The property text
+says "drawing an image touches only cells inside the target window".
+
+The pre-repair gate list is kept here as a literal (`unfixedKittyGates`): with it the statement is false; with
+the regenerated list it is `Props.C20Ext.kitty_placement_inside` / `placement_inside_window`.
+Replayed on the real code by corpus/C20/F120.ops (now: the image is not placed).
 -/
 import VaxisModel.Props.C20Ext
 
 namespace VaxisModel.Witness.F120
-open VaxisModel.Model.ImageDraw VaxisModel.Model.Window
+open VaxisModel.Model.ImageDraw VaxisModel.Model.Window VaxisModel.Gen.ImageConsts
 
-/-- A 4×4-cell image drawn into a 2×2 window at (5,5) of a 10×10 screen. -/
+/-- The leading `if … { return }` statements of `KittyImage.Draw` before the repair. -/
+def unfixedKittyGates : List Gate := [.encoding]
+
+/-- A 4×4-cell image drawn into a 2×2 window at (5,5) of a 10×10 screen: placed by the unrepaired code. -/
 theorem kitty_placement_exceeds_window :
-    kittyDrawn 4 4 (Win.new (.root 0 0 10 10) 5 5 2 2) = true ∧
+    drawnWith unfixedKittyGates true false 4 4 (Win.new (.root 0 0 10 10) 5 5 2 2) = true ∧
     ¬ placementInside 4 4 (Win.new (.root 0 0 10 10) 5 5 2 2) := by
-  refine ⟨rfl, ?_⟩
+  refine ⟨by decide, ?_⟩
   unfold placementInside
   decide
 
-theorem kitty_placement_inside_full_fails : ¬ VaxisModel.Props.C20Ext.kitty_placement_inside_full := by
+/-- "A drawn placement lies inside its window" fails for the unrepaired gate list … -/
+theorem kitty_placement_inside_fails_unfixed :
+    ¬ ∀ (kw kh : Int) (win : Win), drawnWith unfixedKittyGates true false kw kh win = true → placementInside kw kh win := by
   intro h
   exact kitty_placement_exceeds_window.2 (h 4 4 _ kitty_placement_exceeds_window.1)
 
-/-- The sixel gate refuses the same placement. -/
+/-- … and the current source refuses that placement, as the sixel gate always did. -/
+theorem kitty_refuses_now : kittyDrawn 4 4 (Win.new (.root 0 0 10 10) 5 5 2 2) = false := by decide
+
 theorem sixel_refuses : sixelDrawn 4 4 (Win.new (.root 0 0 10 10) 5 5 2 2) = false := by decide
 
 end VaxisModel.Witness.F120
